@@ -2,6 +2,7 @@
 //! usage: pdbs shard <ID> <tier> <i> <K> <out.json> | pdbs replay <ID> <file>
 
 mod c05;
+mod c15;
 mod common;
 
 use common::*;
@@ -100,6 +101,17 @@ fn run_shard(sh: &mut Shard) {
 			let (r, p) = if sh.tier == "thorough" { (600, 300) } else { (120, 40) };
 			sh.run_workloads("readers", n, c05::workload(), r, p, |wl, base| c05::execute(wl, base));
 		},
+		"C15" => {
+			let n = scaled(sh, 210, 4_200);
+			let (r, p) = if sh.tier == "thorough" { (600, 300) } else { (120, 40) };
+			if !sh.run_workloads("drain", n, c15::workload(false), r, p, |wl, base| c15::execute(wl, base)) {
+				return
+			}
+			// bursts beyond the 16 MiB queue limit: few schedules each (17+ MiB of I/O per execution)
+			let n = scaled(sh, 14, 280);
+			let (r, p) = if sh.tier == "thorough" { (40, 20) } else { (12, 4) };
+			sh.run_workloads("burst", n, c15::workload(true), r, p, |wl, base| c15::execute(wl, base));
+		},
 		_ => {},
 	}
 }
@@ -137,10 +149,36 @@ fn main() {
 					let wl = Arc::new(wl);
 					run_schedules(move || c05::execute(wl.clone(), &base), Sched::Replay(schedule), &scratch.join("sched"))
 				},
+				"C15" => {
+					let wl: c15::Workload = serde_json::from_value(case.get("workload").cloned().unwrap_or_default()).expect("workload");
+					let wl = Arc::new(wl);
+					run_schedules(move || c15::execute(wl.clone(), &base), Sched::Replay(schedule), &scratch.join("sched"))
+				},
 				_ => {
 					eprintln!("unknown property {id}");
 					std::process::exit(2)
 				},
+			};
+			// A stored schedule only applies to the build it was recorded on: if the code under
+			// test changed, shuttle cannot follow it (it fails inside its own runtime). In that
+			// case the stored WORKLOAD is re-run under fresh seeded schedules instead.
+			let diverged = out.failure.as_ref().map_or(false, |(sig, detail, _)| (sig.starts_with("panic@") && (detail.contains("ExecutionState") || detail.contains("shuttle"))) || detail.contains("schedule"));
+			let out = if diverged {
+				println!("stored schedule no longer applies to this build; re-running the stored workload under 600 fresh schedules");
+				let base = scratch.clone();
+				std::fs::create_dir_all(&scratch).expect("scratch");
+				match id.as_str() {
+					"C05" => {
+						let wl: Arc<c05::Workload> = Arc::new(serde_json::from_value(case.get("workload").cloned().unwrap_or_default()).expect("workload"));
+						run_schedules(move || c05::execute(wl.clone(), &base), Sched::Random(seed(), 600), &scratch.join("sched"))
+					},
+					_ => {
+						let wl: Arc<c15::Workload> = Arc::new(serde_json::from_value(case.get("workload").cloned().unwrap_or_default()).expect("workload"));
+						run_schedules(move || c15::execute(wl.clone(), &base), Sched::Random(seed(), 600), &scratch.join("sched"))
+					},
+				}
+			} else {
+				out
 			};
 			let _ = std::fs::remove_dir_all(&scratch);
 			match out.failure {
